@@ -91,7 +91,7 @@ def run(tier, seed):
             failures.append({"key": key, "desc": msg, "src": src, "fn": fn})
 
     # ground part: every prefix x unit (x exponent in the thorough tier)
-    plist = prefixes if tier != "quick" else rng.sample(prefixes, 8)
+    plist = prefixes  # every registered prefix, also in the quick tier: a new collision involves one particular prefix and unit
     for u in units:
         for p in [None] + plist:
             for e in ([1] if tier == "quick" else [1, 2, -1, 3]):
@@ -151,14 +151,16 @@ def run(tier, seed):
         ea, eb = rng.choice([1, 2, 3]), rng.choice([1, 2])
         sup = {1: "", 2: "²", 3: "³"}
         texts = ["%s^%d*%s^-%d" % (a.symbol, ea, b.symbol, eb), "%s%s⋅%s⁻%s" % (a.symbol, sup[ea] or "¹", b.symbol, sup[eb] or "¹"),
-                 "%s^%d/%s^%d" % (a.symbol, ea, b.symbol, eb), " %s^%d  %s^-%d " % (a.symbol, ea, b.symbol, eb), "%s^%d / %s%s" % (a.symbol, ea, b.symbol, sup[eb])]
+                 "%s^%d/%s^%d" % (a.symbol, ea, b.symbol, eb), " %s^%d  %s^-%d " % (a.symbol, ea, b.symbol, eb), "%s^%d / %s%s" % (a.symbol, ea, b.symbol, sup[eb]),
+                 # any whitespace: newline, tab, carriage return, form feed
+                 "%s^%d\n%s^-%d\n" % (a.symbol, ea, b.symbol, eb), "\t%s^%d\r\n/\f%s^%d" % (a.symbol, ea, b.symbol, eb)]
         evals += 1
         msg = c13_spellings(texts, ns)
         if msg:
             note(msg, repr(texts), "c13_spellings")
     return {"evaluations": evals, "distinct": len(distinct), "failures": failures[:80], "samples": samples,
             "rule": "every registered unit alone and with %s registered prefixes (ground), random products of 2-3 prefixed powers and quantities over them, "
-                    "5 alternative spellings of random two-factor expressions; distinct = distinct unit expressions" % ("all" if tier != "quick" else "8 sampled"),
+                    "7 alternative spellings (carat/superscript, * / ⋅ juxtaposition, blanks, tabs, newlines, form feeds) of random two-factor expressions; distinct = distinct unit expressions" % ("all"),
             "bound": "ground over %d units x %d prefixes; %d compounds" % (len(units), len(plist), n)}
 
 
